@@ -270,15 +270,39 @@ def replay(rp):
     return 1 if bad else 0
 
 
+def curved_on_ground():
+    """arcs standing on an ideal ground plane (arcs lie in the x-z plane, angle a -> (R cos a, 0, R sin a)): half loops with both
+    ends on the plane, drawn either way, first and not first object; a mast carrying a quarter arc that comes down to the plane"""
+    f = 10.0
+    lam = antgen.C / f
+    R = 0.08 * lam
+    r = 0.005
+    seg = math.pi * R / 8
+
+    def A(n, a1, a2):
+        return dict(kind='arc', nseg=n, radius=R, a1=a1, a2=a2, r=r)
+
+    def W(n, p0, p1):
+        return dict(kind='wire', nseg=n, p0=[float(x) for x in p0], p1=[float(x) for x in p1], r=r)
+    cases = [('half-loop', [A(8, 0, 180)]), ('half-loop-backwards', [A(8, 180, 0)]),
+             ('mast+half-loop', [W(4, (3 * R, 0, 0), (3 * R, 0, 1.5 * R)), A(8, 0, 180)]),
+             ('mast+quarter-arc', [W(4, (0, 0, 0), (0, 0, R)), A(5, 90, 0)]),
+             ('quarter-arc+mast', [A(5, 0, 90), W(4, (0, 0, R), (0, 0, 0))])]
+    return [dict(f=f, ground=True, objs=o, family='ground-' + nm, lam=lam, seg=seg, fresh=True) for nm, o in cases]
+
+
 def run(ck):
     ck.proof_side()
+    ck.cov['further_clauses'] = 'curved antennas of the shared generator (every kind) and five arcs standing on an ideal ground plane (half loops either way, first and not first object, mast + quarter arc)'
     d = ck.get_driver()
     rng = ck.rng
     n = 30 if ck.tier == 'quick' else 400
     dis, viol = [], []
     worst = 0.0
-    for i in range(n):
-        ant = antgen.gen_antenna(rng, max_pulses=14 if ck.tier == 'quick' else 40)
+    cg = curved_on_ground()
+    for i in range(n + len(cg)):
+        ant = cg[i - n] if i >= n else antgen.gen_curved(rng, antgen.CURVED_KINDS[(i // 6) % 5]) if i % 6 == 5 else \
+            antgen.gen_antenna(rng, max_pulses=14 if ck.tier == 'quick' else 40)
         ss = rng.randrange(10 ** 9)
         m = build(ant, ss)
         if antgen.cond(m) > 1e5:
